@@ -860,6 +860,15 @@ def call_module(ex, name, pos, kw, st, fr, e):
         raise Unsupported(f'{name} of {x.ty}')
     if name == 'math.floor':
         x = pos[0]
+        if x.kind in ('int', 'real') and x.n is not None:
+            out_ = []
+            for side, s1 in ex.split(st, x.n, 'math.floor of None'):
+                if side:
+                    out_.append((Exc('TypeError'), s1))
+                else:
+                    y = V(x.ty.with_opt(False), x.t, inf=x.inf)
+                    out_ += call_module(ex, name, [y], kw, s1, fr, e)
+            return out_
         if x.kind == 'int':
             return [(x, st)]
         if x.inf is not None and not is_false(x.inf):
